@@ -9,7 +9,7 @@ CONSTANTS MaxOpts,
 KS3 == {{"a"}, {"a", "c.x"}, {}}
 KS2 == {{"a"}, {"a", "c.x"}}
 LKBuiltin == {"raw", "args", "file"}
-LKOrdered == {"raw", "file", "ordm", "ordp", "priom"}     \* user-written ordered / priority loaders next to the built-in kinds
+LKOrdered == {"raw", "file", "ordm", "ordp", "priom", "markl"}     \* user-written ordered / priority loaders next to the built-in kinds
 NoLK == {}
 JoinNo == {FALSE}
 JoinBoth == BOOLEAN
